@@ -1,6 +1,8 @@
 From Coq Require Import Extraction ExtrOcamlBasic.
 From Common Require Import Bytes Drv Blake2b.
 From Trie Require Import Nibbles Node Encode Spec.
-From C06 Require Import Model.
+From TrieCodec Require Codec View Db.
+From C06 Require Import Model Lookup Bridge.
 Extraction "model.ml" drv_b2n drv_n2b drv_z_of_n drv_n_of_z drv_nat_of_n drv_n_of_nat
-  blake2b_256 apply_op map_of spec_root_bytes bm_get value_hashed engine_root engine_root_pinned.
+  blake2b_256 apply_op map_of spec_root_bytes bm_get value_hashed engine_root engine_root_pinned
+  committed has_b tneeds_root tget Codec.root_hash Db.lookup View.wf_node.
